@@ -26,6 +26,33 @@ def case_expr(o, prob, mp, x, xr, tab_r, solved, nvar=None):
         C.qvec(xr), tab, C.b(solved), C.qvec(x), eps)
 
 
+def force_gap(specs, seed):
+    """every asset touching the first node of the portfolio gets a window so that the node has dispatch variables early and late in the
+    horizon but none in between (an outage of everything connected to the node)"""
+    import random
+    out = []
+    for k, sp in enumerate(specs):
+        rng = random.Random('%s/gap/%d' % (seed, k))
+        pts = gen.grid_points(sp['grid'])
+        T = len(pts) - 1
+        n0 = sp['assets'][0]['nodes'][0]
+        touching = [a for a in sp['assets'] if n0 in a['nodes']]
+        if T < 3 or len(touching) < 2:
+            continue
+        i = rng.randint(1, T - 2)
+        j = rng.randint(i + 1, T - 1)
+        sides = ['l', 'r'] + [rng.choice('lr') for _ in touching[2:]]
+        rng.shuffle(sides)
+        for a, side in zip(touching, sides):
+            a.pop('start', None); a.pop('end', None)
+            if side == 'l':
+                a['end'] = gen.fmt(pts[i])
+            else:
+                a['start'] = gen.fmt(pts[j])
+        out.append(sp)
+    return out
+
+
 def run(ctx):
     if not ctx.proof_gate(THEOREMS):
         return
@@ -37,6 +64,8 @@ def run(ctx):
     # nodes served only by windowed assets: steps without any dispatch at a node (gaps) between steps with dispatch
     specs += gen.gen_many(ctx.seed, n // 3, dict(CFG, p_market=0.3, p_window=0.9, window_kinds=['inside', 'inside', 'left', 'right'], nodes=(2, 3), n_assets=(3, 6),
                                                  p_coarse=0.0, p_periodic=0.0), 'c01gap_')
+    specs += force_gap(gen.gen_many(ctx.seed, n // 3, dict(CFG, p_dupnode=0.0, p_coarse=0.0, p_periodic=0.0, p_window=0.0, T=(4, 8), n_assets=(3, 5), nodes=(2, 3),
+                                                           kinds={'SimpleContract': 3, 'Contract': 1, 'Transport': 3, 'Storage': 2, 'MultiCommodityContract': 3}), 'c01out_'), ctx.seed)
     specs = ctx.specs(specs)
     res = C.run_impl('portfolio', specs)
     exprs, owners = [], []
